@@ -6,14 +6,16 @@ import os
 V = os.path.dirname(os.path.dirname(os.path.abspath(__file__)))
 CLAIMED = {
     "C01": ("Coq theorems C01_lower_bound/C01_attained: the DTW model is the minimum over admissible warping "
-            "paths for all lengths and settings; C01_code_model_is_spec: the model of dtw.distance AS WRITTEN "
-            "(two rolling rows, per-row offset, psi prologue/end scans; index arithmetic regenerated from dtw.py) "
-            "equals that specification for every input with window >= 1 (refinement proof PyDistProofs.v); tie to "
-            "the code: regenerated expressions (BandTie.v) + correspondence of dtw.distance with both extracted "
-            "models",
-            "exact integer arithmetic; the hand-written loop skeleton of the as-written model is tied to the code "
-            "by correspondence",
-            "Coq proof (grid-DP optimality + rolling-buffer refinement) + regenerated definitions + "
+            "paths for all lengths and settings; C01_py_distance_as_written: the body of dtw.distance, regenerated "
+            "WHOLE from dtw.py by tools/pyfun.py (Gen_pydist.v: flat two-row buffer, per-row offset, cell update, "
+            "sc/ec bookkeeping, psi prologue/end scans, every subscript and assert collected in a flag), returns "
+            "that minimum for every input with window >= 1 and no subscript or assert fails (PyDistGen.v: "
+            "regenerated routine = hand model PyDist.v by simulation; PyDistProofs.v: hand model = specification); "
+            "tie to the code: regeneration on every run + the extracted regenerated routine and the hand model are "
+            "both run next to dtw.distance",
+            "exact arithmetic over Z + infinity (no rounding); the inner-distance callable, result_fn, ed.distance "
+            "and the decoding done by DTWSettings are parameters of the theorem, tied by correspondence",
+            "Coq proof (grid-DP optimality + refinement of the regenerated routine) + regenerated definitions + "
             "model/implementation correspondence"),
     "C02": ("Coq theorems: C02_c_dtw_distance[_ndim][_euclidean]_as_written - the four C kernels dtw_distance*, "
             "regenerated WHOLE from dd_dtw.c by tools/cfun.py (settings decoding, two-row buffer, cell update, "
@@ -52,7 +54,7 @@ CLAIMED = {
             "as-written model",
             "bookkeeping of the C warping-paths kernels: abstract theorem + correspondence",
             "Coq proof (PrunedDTW: abstract soundness + refinement of the as-written Python routine and of the "
-            "regenerated C kernel) + correspondence"),
+            "regenerated C kernel and of the regenerated dtw.distance, C03_py_distance_as_written_bounded) + correspondence"),
     "C09": ("Coq theorems C09_lb_keogh_le_dtw and C09_dtw_le_euclidean for all series/windows/penalties; lb_keogh_model "
             "uses the index arithmetic regenerated from dtw.lb_keogh; ed.distance/ed_cc/lb_keogh (py and C) compared "
             "with the extracted models; the sandwich re-checked on implementation values",
